@@ -321,17 +321,20 @@ Section Spec.
     && l_eqb (fun p q => N.eqb (fst p) (fst q) && Z.eqb (snd p) (snd q)) (s_cnt a) (s_cnt b)
     && l_eqb N.eqb (s_log a) (s_log b).
 
+  Definition obj_cur (r : N) (g : nat) (o : objs) : sstate :=
+    match obj_get r g o with Some s => s | None => gen_state g end.
+
+  Definition declares_state (g : nat) : bool :=
+    match nth_error f g with Some gr => g_state gr | None => false end.
+
   Definition spec_resume (st : spec_state) (r : N) (mods : list nat) (snaps : list (nat * sstate)) : verdict :=
-    (* the state at the interrupt is what the fold produced so far *)
-    if negb (forallb (fun gs => match obj_get r (fst gs) (sp_objs st) with
-                                | Some s => s_eqb s (snd gs)
-                                | None => false end) snaps) then VBad 8
-    else if negb (forallb (fun g => match obj_get r g (sp_objs st) with Some _ => true | None => false end) mods)
-    then VBad 9
+    (* the state at the interrupt is what the fold produced so far (a graph whose state has
+       not been touched yet still has the generated value) *)
+    if negb (forallb (fun gs => declares_state (fst gs) && s_eqb (obj_cur r (fst gs) (sp_objs st)) (snd gs)) snaps)
+    then VBad 8
+    else if negb (forallb declares_state mods) then VBad 9
     else VOk (mkSp (sp_tab st)
-               (fold_left (fun o g => match obj_get r g o with
-                                      | Some s => obj_set r g (modifier s) o
-                                      | None => o end) mods (sp_objs st))).
+               (fold_left (fun o g => obj_set r g (modifier (obj_cur r g o)) o) mods (sp_objs st))).
 
   Fixpoint spec_run (st : spec_state) (l : list item) : verdict :=
     match l with
